@@ -457,15 +457,26 @@ func c16Parsers(c *eng.Ctx) {
 				if depth <= 0 {
 					return ""
 				}
-				f := ""
-				for k, a := range eng.UpArgs(n) {
+				// (a helper shared by several fields — one validator for the client's and the
+				// serving key pair — stands for all of them: the fields are joined with '|')
+				var fs []string
+				for _, a := range eng.UpArgs(n) {
 					fa := fieldOfD(a, depth-1)
-					if fa == "" || (k > 0 && fa != f) {
+					if fa == "" {
 						return ""
 					}
-					f = fa
+					for _, one := range strings.Split(fa, "|") {
+						dup := false
+						for _, x := range fs {
+							dup = dup || x == one
+						}
+						if !dup {
+							fs = append(fs, one)
+						}
+					}
 				}
-				return f
+				sort.Strings(fs)
+				return strings.Join(fs, "|")
 			case *ssa.UnOp:
 				if n.Op != token.MUL {
 					return ""
@@ -499,7 +510,9 @@ func c16Parsers(c *eng.Ctx) {
 					}
 					for _, a := range eng.Args(ci) {
 						if f := fieldOf(a); f != "" {
-							out[use{p, f}] = ci
+							for _, one := range strings.Split(f, "|") {
+								out[use{p, one}] = ci
+							}
 						}
 					}
 				}
